@@ -1,6 +1,8 @@
 //! ippsim — deterministic simulation with fault injection for ancwrd1/ipp.rs.
 //! usage: ippsim check <ID> <quick|thorough> | ippsim replay <ID> <file> | ippsim selfcheck <ID>...
 
+#![allow(dead_code)]
+
 mod damage;
 mod drive;
 mod exec;
